@@ -139,8 +139,20 @@ def locs_records(rnd, n):
                 node = Node(c, nm, 'LATCH' if (k % 3 == 1 and rnd.random() < 0.7) else 'DFF')
             info.append((base, ix, nm, k < nio, node.kind))
         allb = sorted({e[0] for e in info})
-        for which in ('io', 's'):
-            for prefix in rnd.sample(['a', 'ab', 'd', 'data', 'q', 'x', 'zz', 'A', 'do', ''], 4):
+        prefixes = rnd.sample(['a', 'ab', 'd', 'data', 'q', 'x', 'zz', 'A', 'do', ''], 4)
+        plan = [(which, prefix, 0) for which in ('io', 's') for prefix in prefixes]
+        if nio >= 2 and rnd.random() < 0.5:
+            # history: the same prefixes are looked up again after two ports have changed places (same counts), and after
+            # the caller has modified a list that an earlier lookup returned
+            plan += [('swap', None, 0)] + [(which, prefix, 1) for which in ('io', 's') for prefix in rnd.sample(prefixes, 2)]
+        for which, prefix, again in plan:
+            if which == 'swap':
+                a, b = rnd.sample(range(nio), 2)
+                c.io_nodes[a], c.io_nodes[b] = c.io_nodes[b], c.io_nodes[a]
+                pos = [k for k, e in enumerate(info) if e[3]]
+                info[pos[a]], info[pos[b]] = info[pos[b]], info[pos[a]]
+                continue
+            if True:
                 # positions: io_locs indexes io_nodes, s_locs indexes s_nodes = ports, then flip-flops in node order
                 if which == 'io':
                     seqn = [e for e in info if e[3]]
@@ -148,10 +160,13 @@ def locs_records(rnd, n):
                     # s_nodes: ports, then ALL flip-flops, then ALL latches (each in node order)
                     seqn = [e for e in info if e[3]] + [e for e in info if not e[3] and e[4] == 'DFF'] + [e for e in info if not e[3] and e[4] == 'LATCH']
                 rec = dict(names=[dict(m=e[0].startswith(prefix), b=allb.index(e[0]), ix=list(e[1])) for e in seqn], raised=False,
-                           what='%s_locs(%r) over %s' % (which, prefix, [e[2] for e in seqn]))
+                           what='%s_locs(%r) over %s%s' % (which, prefix, [e[2] for e in seqn], ' (again, after a port swap)' if again else ''))
                 try:
                     got = c.io_locs(prefix) if which == 'io' else c.s_locs(prefix)
                     rec['got'] = tojson(got)
+                    if isinstance(got, list):
+                        got.append(12345)          # the caller owns the returned list
+                        got.reverse()
                 except Exception as e:
                     rec['raised'] = True
                     rec['got'] = [-1]
@@ -200,6 +215,12 @@ def main(tier=None, replay=None):
             if c2 is not None:
                 inputs.append(gen.circuit_state(c2))
                 recs.append(traversal_record(rnd, c2))
+    # scale: a fork with more than 256 branches (visit counters and positions beyond 8 bits)
+    for t in range(ck.pick(1, 3)):
+        c = gen.layered_circuit(rnd, 3, 2, fanout_hub=rnd.randint(257, 300))
+        inputs.append(gen.circuit_state(c))
+        recs.append(traversal_record(rnd, c))
+        ck.count('circuits-with-fanout-over-256')
     r = ck.tlc_batch('Traverse', 'Traverse', traces=recs, label='T:Traverse', per_shard=60, timeout=1700)
     ck.require_clean(r)
     ck.traces += len(recs)
@@ -223,9 +244,11 @@ def main(tier=None, replay=None):
         if any(x['st']['seq']):
             ck.count('circuits-with-state')
     for x in lrecs:
+        if 'again' in x['what']:
+            ck.count('locs-again-after-swap')
         g = x['got']
         ck.count('locs-none' if g == [-1] else 'locs-single' if len(g) == 1 else 'locs-nested' if g[:2] == [-2, -2] else 'locs-bus')
-    ck.need_cover(['circuits-with-open-pins', 'circuits-with-state', 'locs-nested', 'locs-bus', 'locs-none', 'locs-single'])
+    ck.need_cover(['circuits-with-fanout-over-256', 'locs-again-after-swap', 'circuits-with-open-pins', 'circuits-with-state', 'locs-nested', 'locs-bus', 'locs-none', 'locs-single'])
     ck.sample(dict(topological_order=recs[0]['topo'][:12], levels=recs[0]['lvl'][:12], fanin=recs[0]['fan'][:1]))
     ck.sample(dict(lookup=lrecs[0]['what'], returned=lrecs[0]['got']))
     ck.assumptions += ['circuits are acyclic once cut at state elements; forks have one driver', 'fan-in: a non-origin state element feeding the cone may or may not be yielded (DESIGN §5.2)',
